@@ -35,6 +35,9 @@ pub struct C12;
 /// gas-withdrawal point of a cycle is chosen by the compiler), explicit implicit precedence with
 /// unlisted implicits, generic traits with several instantiations, closures.
 const TEMPLATES: &[&str] = &[
+    // Zero-sized types that occur in function signatures only (no libfunc mentions them): their
+    // declarations are collected from the signatures (added after seeded change C12-r3).
+    "#[derive(Drop)]\nstruct MarkerA {}\n#[derive(Drop)]\nstruct MarkerB {}\n#[derive(Drop)]\nstruct MarkerC {}\n#[derive(Drop)]\nstruct MarkerD {}\nfn pass_d(d: MarkerD) -> MarkerD {\n    d\n}\nfn pass_a(a: MarkerA) -> MarkerA {\n    a\n}\nfn pass_pair(p: (MarkerC, MarkerB)) -> (MarkerC, MarkerB) {\n    p\n}\nfn pass_b(b: MarkerB) -> MarkerB {\n    b\n}\nfn pass_c(c: MarkerC, x: felt252) -> (MarkerC, felt252) {\n    (c, x + 1)\n}\n",
     "#[implicit_precedence(core::pedersen::Pedersen, core::RangeCheck, core::gas::GasBuiltin)]\nfn ping(n: u32, acc: felt252) -> felt252 {\n    if n == 0 {\n        acc\n    } else {\n        pong(n - 1, core::pedersen::pedersen(acc, 1))\n    }\n}\nfn pong(n: u32, acc: felt252) -> felt252 {\n    if n == 0 {\n        acc\n    } else if n % 2 == 0 {\n        pong(n - 1, acc + 1)\n    } else {\n        ping(n - 1, core::pedersen::pedersen(acc, 2))\n    }\n}\nfn main() -> felt252 {\n    ping(10, 0)\n}\n",
     "fn f(n: felt252) -> felt252 {\n    if n == 0 {\n        1\n    } else {\n        g(n - 1) + 1\n    }\n}\nfn g(n: felt252) -> felt252 {\n    if n == 0 {\n        2\n    } else {\n        f(n - 1) * 2\n    }\n}\n",
     "fn a(n: u32) -> u32 {\n    if n == 0 {\n        0\n    } else {\n        b(n - 1) + c(n - 1)\n    }\n}\nfn b(n: u32) -> u32 {\n    if n == 0 {\n        1\n    } else {\n        c(n - 1) + 1\n    }\n}\nfn c(n: u32) -> u32 {\n    if n == 0 {\n        2\n    } else {\n        a(n - 1) + 2\n    }\n}\nfn main() -> u32 {\n    c(5) + b(4) + a(3)\n}\n",
